@@ -1,4 +1,4 @@
-\* quick 4/4: the pool as written with TWO workers: the dispatch-level and delivery properties hold (the invocation-level ones do not: MC_WsAsyncApp_dev_InvocationInversion.cfg)
+\* quick: the pool as written with TWO workers: dispatch-level and delivery properties hold (the invocation-level ones do not: MC_WsAsyncApp_dev_InvocationInversion.cfg)
 CONSTANTS
   c1 = c1
   c2 = c2
@@ -6,8 +6,8 @@ CONSTANTS
   w1 = w1
   w2 = w2
   w3 = w3
-  Clients <- CS2
-  MaxMsgs = 1
+  Clients <- CS1
+  MaxMsgs = 2
   MaxPings = 0
   Workers <- WS2
   Heartbeat = FALSE
@@ -19,5 +19,6 @@ CONSTANTS
 INIT Init
 NEXT Next
 SYMMETRY Sym
+VIEW MCView
 INVARIANTS TypeOK CurInStreams DispatchInvs DeliveryInvs
 CHECK_DEADLOCK FALSE
